@@ -270,6 +270,8 @@ class H2Reactor:
         self.upload_started = not spec.get("uploads_wait", False)
         self.upload_blocked = 0
         self.drips = 0
+        self._skip101 = bytearray() if spec.get("skip_h1_101") else None
+        self.upgrade_head = None
 
     def sv(self, sid):
         s = self.streams.get(sid)
@@ -327,6 +329,14 @@ class H2Reactor:
 
     # ---------------------------------------------------------------------------------------------
     def react(self, data, now):
+        if self._skip101 is not None and data:
+            self._skip101 += data
+            idx = self._skip101.find(b"\r\n\r\n")
+            if idx < 0:
+                return []
+            self.upgrade_head = bytes(self._skip101[:idx + 4])
+            data = bytes(self._skip101[idx + 4:])
+            self._skip101 = None
         if not data:
             return self._drip() + self.pump()
         reply = bytearray()
